@@ -109,6 +109,13 @@ impl Harness {
                 }
                 out
             }
+            "X" => {
+                let out = self.tree.exec_x(&ws[1..]);
+                for f in self.tree.take_failures() {
+                    self.failures.push(format!("case={} line={} op=`{}` {}", self.case, self.lineno, line, f));
+                }
+                out
+            }
             "R" => {
                 let out = self.tree.exec(&ws[1..]);
                 for f in self.tree.take_failures() {
@@ -145,11 +152,21 @@ fn main() {
             let mut imp = std::io::BufWriter::new(std::fs::File::create(format!("{}/impl.txt", out)).unwrap());
             let mut h = Harness::new();
             let mut rng = Rng::new(seed);
+            // oracle failures are written (and flushed) as they occur: a run that is killed or hangs
+            // later still leaves the failing history on disk
+            let mut orc = std::fs::File::create(format!("{}/oracle.txt", out)).unwrap();
+            let mut reported = 0usize;
             {
                 let mut exec = |line: String| -> String {
-                    let o = h.exec_line(&line);
                     writeln!(ops, "{}", line).unwrap();
+                    ops.flush().unwrap();
+                    let o = h.exec_line(&line);
                     writeln!(imp, "{}", o).unwrap();
+                    imp.flush().unwrap();
+                    while reported < h.failures.len() {
+                        writeln!(orc, "{}", h.failures[reported]).unwrap();
+                        reported += 1;
+                    }
                     o
                 };
                 if let Some(cp) = arg_val(&args, "--corpus") {
@@ -167,13 +184,15 @@ fn main() {
                             let l = if c % 5 == 0 { len * 3 } else { len };
                             arena::gen_case(&mut rng, l, &mut exec);
                         }
-                        "tree-ops" | "tree-iter" | "tree-range" | "tree-api" => {
+                        "tree-ops" | "tree-iter" | "tree-range" | "tree-api" | "tree-damage" | "tree-helpers" => {
                             exec(format!("case {}", c));
                             let l = if c % 9 == 0 { len * 4 } else { len };
                             match suite.as_str() {
                                 "tree-ops" => treegen::gen_ops(&mut rng, l, &mut exec, c),
                                 "tree-iter" => treegen::gen_iter(&mut rng, l, &mut exec, c),
                                 "tree-range" => treegen::gen_range(&mut rng, l, &mut exec, c),
+                                "tree-damage" => treegen::gen_damage(&mut rng, l, &mut exec, c),
+                                "tree-helpers" => treegen::gen_helpers(&mut rng, l, &mut exec, c),
                                 _ => treegen::gen_api(&mut rng, l, &mut exec, c),
                             }
                         }
@@ -186,7 +205,6 @@ fn main() {
             }
             ops.flush().unwrap();
             imp.flush().unwrap();
-            std::fs::write(format!("{}/oracle.txt", out), h.failures.join("\n") + if h.failures.is_empty() { "" } else { "\n" }).unwrap();
             h.reset();
             let evs: Vec<String> = h.events.iter().map(|(k, v)| format!("\"{}\": {}", k, v)).collect();
             std::fs::write(format!("{}/events.json", out), format!("{{{}}}\n", evs.join(", "))).unwrap();
